@@ -42,7 +42,8 @@ type frameSpec struct {
 	proto    uint8
 	tcpFlags uint8
 	flavour  int
-	truncate int // 0 = whole frame; otherwise cut the frame to this many bytes
+	truncate int  // 0 = whole frame; otherwise cut the frame to this many bytes
+	short    bool // no payload: the frame ends with its L4 header (shorter than the 128 bytes the parser tries to pull)
 }
 
 func (fs *frameSpec) v6() bool { return fs.src.Addr().Is6() && !fs.src.Addr().Is4In6() }
@@ -92,6 +93,9 @@ func (fs *frameSpec) build() (b []byte, ethertype uint16, ipOff int) {
 	if pad < 16 {
 		pad = 16
 	}
+	if fs.short {
+		pad = 0
+	}
 	payload := make([]byte, pad)
 	for i := range payload {
 		payload[i] = byte(0x40 + i%23)
@@ -111,9 +115,9 @@ func (fs *frameSpec) build() (b []byte, ethertype uint16, ipOff int) {
 		var ext []byte
 		switch fs.flavour {
 		case ipExt:
-			h[6] = 0                                           // hop-by-hop
-			ext = append(ext, 60, 0, 1, 4, 0, 0, 0, 0)          // hbh: next = dstopts, len 0, PadN(4)
-			ext = append(ext, fs.proto, 0, 1, 4, 0, 0, 0, 0)    // dstopts: next = L4
+			h[6] = 0                                         // hop-by-hop
+			ext = append(ext, 60, 0, 1, 4, 0, 0, 0, 0)       // hbh: next = dstopts, len 0, PadN(4)
+			ext = append(ext, fs.proto, 0, 1, 4, 0, 0, 0, 0) // dstopts: next = L4
 		case ipFragNI:
 			h[6] = 44
 			ext = append(ext, fs.proto, 0, 0x00, 0xb9, 0, 0, 0, 7) // offset 23*8, M=1
